@@ -343,7 +343,8 @@ def variableLoop (cfg : SetCfg) : Nat → TokPos → List Part → PS → PM (Ex
         else do
           let (e, p) ← parseExpression cfg fuel p
           match p.matchSym b!"]" with
-          | some p => variableLoop cfg fuel pos (parts ++ [Part.sub e none]) p
+          -- the Go loop has no `continue` on this branch: a subscript ends the variable
+          | some p => pure (.var (parts ++ [Part.sub e none]) pos, p)
           | none => .error (p.err "Missing closing bracket after subscript argument.")
       | none =>
         match p.matchSym b!"(" with
